@@ -1,25 +1,9 @@
-mod accept;
-mod bits;
-mod configs;
-mod core;
-mod cprcheck;
-mod decoder;
-mod framecheck;
-mod framegen;
-mod helper;
-mod readercheck;
-mod refcpr;
-mod refdec;
-mod render;
-mod total;
-mod tracker;
-#[path = "../../shared/transcript.rs"]
-mod transcript;
 
 #[global_allocator]
 static GLOBAL: total::CountingAlloc = total::CountingAlloc;
 
-use crate::core::*;
+use vcheck::core::*;
+use vcheck::*;
 
 fn usage() -> ! {
     eprintln!("usage: vcheck <C01..C20> quick|thorough | vcheck <ID> --replay <path>");
